@@ -149,6 +149,8 @@ M = {
    [("msgwriter.go", "\tif mw.err == nil && n < len(s) {", "\tif mw.err == nil && n < len(s) && false {")]),
  "C12-signing-prerender-error-ignored": ("C12", ["C12"], "the error of the rendering that is signed is ignored again (the fix removed)",
    [("msg.go", "\tif mw.err != nil {\n\t\t// What would be signed is not the complete message", "\tif mw.err != nil && false {\n\t\t// What would be signed is not the complete message")]),
+ "C01-pgp-signed-double-semicolon": ("C01", ["C01"], "the media type of PGP/MIME signed messages ends in a semicolon again (the fix removed)",
+   [("msgwriter.go", "`signed; protocol=\"application/pgp-signature\"`", "`signed; protocol=\"application/pgp-signature\";`")]),
  "C17-deadline-times-thousand": ("C17", ["C17"], "deadline armed with timeout*1000",
    [("smtp/smtp.go", "c.conn.SetDeadline(time.Now().Add(timeout))", "c.conn.SetDeadline(time.Now().Add(timeout * 1000))")]),
  "C17-dial-deadline-cleared-after-greeting": ("C17", ["C17"], "the dial-phase deadline is cleared once the greeting was read",
